@@ -172,6 +172,9 @@ func (c *Case) features(kind string) string {
 			}
 		}
 	}
+	if sp.fam == "two" && (c.T1 == "string") != (c.T2 == "string") {
+		n = append(n, "string-vs-nonstring")
+	}
 	if t, ok := tests[c.Test]; ok && !t.equiv && sp.fam != "quant" && strings.Contains(c.kwSig(), "test") {
 		n = append(n, "order-test")
 	}
@@ -364,6 +367,10 @@ func judge(c *Case) (fails []failure, src, got string) {
 		primary = vals[0]
 	}
 	pshow := sl.Show(primary)
+	if len(vals) != 1 {
+		// every function under observation returns exactly one value
+		fails = append(fails, failure{"value-count", fmt.Sprintf("%s => %d values %s; the language defines one value", src, len(vals), sl.Show(top[0]))})
+	}
 	wantShow := ex.show
 	switch {
 	case ex.truth == 1:
@@ -581,9 +588,7 @@ func exec(x *fw.Ctx, c Case) {
 	if c.Test != "" {
 		x.Cover("test:" + c.Test)
 	}
-	if c.CntNil {
-		x.Cover("minority:count-nil")
-	}
+	coverAvoidSets(x, &c)
 	if len(fails) == 0 {
 		x.Cover("agreed")
 		return
@@ -596,10 +601,10 @@ func exec(x *fw.Ctx, c Case) {
 		seen[f.kind] = true
 		m := minimise(c, f.kind)
 		kind := f.kind
-		if na := m.nilArgs(); na != "" && (strings.HasPrefix(kind, "error:") || kind == "internal-fault") {
+		if na := m.nilArgs(); na != "" && (strings.HasPrefix(kind, "error:") || kind == "internal-fault") && !m.CntNil && !m.EndNil {
 			kind += "@empty-list-" + na
 		}
-		sig := fmt.Sprintf("fn=%s fail=%s kw=%s feat=%s typ=%s", c.Fn, kind, m.kwSig(), m.features(kind), m.typSig())
+		sig := fmt.Sprintf("fn=%s fail=%s feat=%s kw=%s typ=%s", c.Fn, kind, m.features(kind), m.kwSig(), m.typSig())
 		msg := f.msg
 		if ms := m.source(); ms != src {
 			for _, mf := range safeJudge(&m) {
@@ -610,6 +615,39 @@ func exec(x *fw.Ctx, c Case) {
 			}
 		}
 		x.Fail(sig, "%s", msg)
+	}
+}
+
+// coverAvoidSets counts, for the constructs that are listed findings on the
+// pinned tree, how many cases produce them (minority:) and how many cases of
+// the same function stay clear of them (avoided:).
+func coverAvoidSets(x *fw.Ctx, c *Case) {
+	mark := func(present bool, what string) {
+		if present {
+			x.Cover("minority:" + what)
+		} else {
+			x.Cover("avoided:" + what)
+		}
+	}
+	feat := c.features("")
+	has := func(f string) bool { return strings.Contains("+"+feat+"+", "+"+f+"+") }
+	switch c.Fn {
+	case "search", "mismatch":
+		mark(c.FromEnd == "t", "search/mismatch with :from-end")
+		if c.Fn == "search" {
+			mark(has("string-vs-nonstring"), "search between a string and a list/vector")
+			mark(has("empty1"), "search for an empty pattern")
+		}
+	}
+	switch c.Fn {
+	case "fill", "replace", "mismatch":
+		mark(has("bound-at-length"), "explicit bound equal to the length (fill replace mismatch)")
+	}
+	if c.Fn == "reduce" {
+		mark(has("empty1") && c.Init == "", "reduce of an empty range without :initial-value")
+	}
+	if na := c.nilArgs(); na != "" {
+		x.Cover("minority:empty list as a sequence argument")
 	}
 }
 
@@ -754,12 +792,15 @@ func gen(r *rand.Rand, i int, tier string) Case {
 func init() {
 	fw.Register(fw.Spec[Case]{
 		ID: "C14",
-		Rule: "one call of a sequence function per case: function x sequence type(s) x element flavour (integers, symbols, characters, tagged conses, alist pairs; " +
-			"4-symbol alphabet) x keyword combination with in-range bounds. Block 1 (seed-independent): every function x type x 4 fixed sequences x every presence " +
-			"combination of bounds/from-end/count/key/test. Block 2 (seed-independent): every sequence of length 0..3 (thorough: 0..4) over the alphabet for every " +
-			"function x type, keywords drawn per index. Block 3 (seeded): sequences of length 4..8, everything random. distinct = distinct case; all cases are " +
-			"non-trivial (the language pins the result). Avoided in most cases: :count nil and reduce of an empty range without :initial-value (listed findings, " +
-			"kept in a minority). :test-not and the -if-not variants (other than assoc-if-not) are not documented by slip and are not generated.",
+		Rule: "one call of one of 58 sequence functions per case: function x sequence type(s) (list, vector, string) x element flavour (integers, symbols, symbols with nil, " +
+			"characters, tagged conses, alist pairs; 4-symbol alphabets) x keyword combination (:start :end :key :test :count :from-end, :start2/:end2, :initial-value, " +
+			"result type, keyword order) with in-range bounds. Block 1 (seed-independent): every function x type x 4 fixed sequences x every presence combination of " +
+			"bounds/from-end/count/key/test. Block 2 (seed-independent): every sequence of length 0..3 (thorough: 0..4) over the alphabet for every function x type, " +
+			"keywords drawn per index. Block 3 (seeded): sequences of length 4..8, everything random. distinct = distinct case; every case is non-trivial (the language " +
+			"pins the result). A failing case is reduced (keywords dropped, :key applied to the data, sequence types made uniform) before its signature is taken. " +
+			"Kept in a minority of cases because they are listed open findings: :from-end of search/mismatch, search between a string and a non-string, " +
+			"explicit bounds equal to the length in fill/replace/mismatch, reduce of an empty range without :initial-value. Not generated: :test-not and the -if-not variants other than assoc-if-not (slip does not have them), " +
+			"octets, eql on symbols, floor inside :key lambdas, negative integers under oddp/evenp (defects of other properties).",
 		N:     nCases,
 		Gen:   gen,
 		Exec:  exec,
